@@ -124,7 +124,7 @@ func genMutants(c *vf.Ctx, t *target) {
 	// length prefix, the first bytes behind it and a seeded sample)
 	hdrPos := samplePositions(r, 0, H, H)
 	if t.long {
-		hdrPos = append(samplePositions(r, 0, min(16, H), 16), samplePositions(r, min(16, H), H, c.N(48, 240))...)
+		hdrPos = append(samplePositions(r, 0, min(16, H), 16), samplePositions(r, min(16, H), H, c.N(32, 240))...)
 	}
 	for _, p := range hdrPos {
 		if c.Quick() {
@@ -156,7 +156,7 @@ func genMutants(c *vf.Ctx, t *target) {
 		}
 	}
 	sort.Ints(bounds)
-	if nb := c.N(16, 60); t.long && len(bounds) > nb {
+	if nb := c.N(12, 60); t.long && len(bounds) > nb {
 		var sel []int
 		for _, k := range samplePositions(r, 0, len(bounds), nb) {
 			sel = append(sel, bounds[k])
@@ -166,7 +166,7 @@ func genMutants(c *vf.Ctx, t *target) {
 	// body positions
 	var flipPos, editPos []int
 	if c.Quick() {
-		flipPos = samplePositions(r, H, L, 64)
+		flipPos = samplePositions(r, H, L, map[bool]int{false: 64, true: 32}[t.long])
 		editPos = flipPos
 	} else {
 		if L <= 8192 {
@@ -194,7 +194,7 @@ func genMutants(c *vf.Ctx, t *target) {
 	files := map[int]bool{}
 	if t.long {
 		files[0], files[1], files[t.nWAL] = true, true, true
-		for _, k := range samplePositions(r, 2, t.nWAL, c.N(2, 8)) {
+		for _, k := range samplePositions(r, 2, t.nWAL, c.N(1, 8)) {
 			files[k] = true
 		}
 	} else {
@@ -260,6 +260,9 @@ func pairMutants(c *vf.Ctx, t *target, r *rand.Rand, files map[int]bool) []mutan
 	}
 	var out []mutant
 	nPos := c.N(4, 24)
+	if t.long {
+		nPos = c.N(2, 12)
+	}
 	start := t.hdrEnd
 	for fi, end := range t.ends {
 		n := end - start
@@ -372,6 +375,7 @@ func posClass(t *target, domain string, m mutant) string {
 func run(c *vf.Ctx) {
 	c.Rule("a case = one (possibly altered) snapshot byte stream, taken from Store.Open(id) of a generated source store, handed to a destination Store sink (raft's Create/Write…/Cancel-or-Close sequence, seeded write split) and to snapshot.Restore; " +
 		"unaltered streams: every split pattern (1 byte, primes, length-prefix/header/file boundaries ±1, whole) and the transport zstd pair with 3 buffer sizes × 3 read sizes + 1-byte trickle; " +
+		"source stores include one seeded long WAL chain (newest full + 30..45 WAL files accumulated behind it, stream header of several hundred bytes) whose newest snapshot is transferred under the same unaltered split patterns (single-file boundaries sampled when a stream has more than 10 files) and with sampled instead of exhaustive header-byte / boundary / per-file alterations; " +
 		"altered streams: bit flip / drop / insert / duplicate / truncate at every header byte, at all boundaries and at sampled (thorough: all for ≤8 KiB, 2000 sampled otherwise) body bytes, appended bytes, header-field edits (sizes ±1, CRC ±1, CRC zeroed/absent, swapped/dropped/added WAL headers, version, payload kind), compound (header edit, data edit) pairs per file — CRC field zeroed and/or size field re-aligned together with a flip/drop/insert/duplicate/truncate inside the file that field protects (database, every WAL; WAL header, frame headers, page bodies, first/last byte), each installed with a whole and a chunked write and restored —, the single edits again on the compressed bytes; plus the real NodeTransport pair over TCP with one flipped bit on the wire. " +
 		"distinct = (stream, domain, mutation); non-trivial when the altered bytes differ from the original")
 	c.Assume("\"identical\" is byte equality (sha256) of the database produced by Store.Open→snapshot.Restore on the destination (or by Restore on the stream) with the one produced from the unmodified source store, whose logical dump was checked against the stock-driver SQLite twin when the store was generated")
